@@ -87,8 +87,9 @@ def build(g, chart, gvar):
             extra = "\nsend('b', k=v)" if ident == 0 else "\nnotify('note', k=v)"
             return "A(%d)\nv = v + 1" % ident + extra
         base = c08.hook(kind, ident).replace('\nL.append(1)', '')
-        if kind == 'exit':     # what active() says while states are being exited ends up in the context
-            base += "\nseen = seen + [tuple(active(n) for n in NAMES)]"
+        if kind == 'exit' and ident == 0:     # what active() says when the outermost state is exited ends up in the
+            # context; only contracts call active() earlier in the micro step (a cache filled by a contract shows here)
+            base += "\nseen = seen + [[active(n) for n in NAMES]]"
         return base
     sc, trs, cm = cg.build(chart, 'id', code)
     for i in range(cm.n):
